@@ -136,6 +136,14 @@ Proof.
     apply (prev_lf_none c o E q H1 H2).
 Qed.
 
+Lemma next_lf_iff c o p : 0 <= o -> (next_lf c o = Some p <-> is_next_lf c o p).
+Proof.
+  intros Ho. split; [apply next_lf_some; exact Ho|apply is_next_lf_fun; exact Ho].
+Qed.
+
+Lemma prev_lf_iff c o q : prev_lf c o = Some q <-> is_prev_lf c o q.
+Proof. split; [apply prev_lf_some|apply is_prev_lf_fun]. Qed.
+
 (* ------------------------------------------------------- find_token_spec *)
 (* the result the scans must produce *)
 Definition scan_fwd (H A : Z) (c : list Z) (o : Z) : tok :=
